@@ -163,6 +163,21 @@ def check_views(inp):
       sizes = dict(v.client_sizes())
       if 'c' not in chain and sizes != {k: len(ref[k]['x']) for k in ref}:
         return f'{nm}: client_sizes wrong'
+      # two access paths of the same object consumed interleaved: each still sees what it sees alone
+      alone_ids, alone_sizes, alone_cl = list(v.client_ids()), list(v.client_sizes()), [k for k, _ in v.clients()]
+      zipped = list(zip(v.client_ids(), v.client_sizes(), v.clients()))
+      if [a for a, _, _ in zipped] != alone_ids or [b_ for _, b_, _ in zipped] != alone_sizes or \
+          [c_[0] for _, _, c_ in zipped] != alone_cl:
+        return (f'{nm}: zip(client_ids(), client_sizes(), clients()) of the view {ops} gives '
+                f'{[(a, b_, c_[0]) for a, b_, c_ in zipped]}; alone they give {alone_ids} / {alone_sizes} / {alone_cl}')
+      if len(ref) >= 2:
+        it = v.shuffled_clients(buffer_size=2, seed=1)
+        head = [next(it)[0]]
+        mid = [k for k, _ in v.clients()]          # a full pass in the middle of a shuffled pass
+        rest = [k for k, _ in itertools.islice(it, len(ref) - 1)]
+        if mid != alone_cl or sorted(head + rest) != sorted(ref):
+          return (f'{nm}: a clients() pass in the middle of a shuffled pass: clients() gave {mid} (alone {alone_cl}), the shuffled '
+                  f'pass visited {head + rest} instead of each of {sorted(ref)} once')
     for nm, v in parents.items():
       if sorted(v.client_ids()) != parent_ids[nm]:
         return f'{nm}: deriving a view changed the parent'
